@@ -6,10 +6,10 @@ import io
 import json
 
 from .. import mapgen, mapsym
-from ..coqlit import Err
+from ..coqlit import Err, clist, cnat, cstr
 
 PROP = "C01"
-RUN = "Run_C01"
+RUN = "Run_C01x"
 THEOREMS = "Props/C01.v"
 ANCHORS = [
     ("pipefunc/map/_run.py", ["run_map", "_func_kwargs", "_select_kwargs", "_run_iteration_and_process", "_update_array",
@@ -19,25 +19,73 @@ ANCHORS = [
     ("pipefunc/map/_shapes.py", ["map_shapes", "internal_shape_from_mask", "external_shape_from_mask"]),
     ("pipefunc/map/_run_info.py", ["RunInfo.create", "RunInfo.init_store", "_construct_internal_shapes", "_init_arrays"]),
     ("pipefunc/map/_storage_array/_base.py", ["select_by_mask", "iterate_shape_indices"]),
-    ("pipefunc/map/_mapspec.py", ["MapSpec.input_keys", "MapSpec.output_key", "MapSpec.shape", "_shape_to_key"]),
+    ("pipefunc/map/_mapspec.py", ["MapSpec.input_keys", "MapSpec.output_key", "MapSpec.shape", "_shape_to_key",
+                                  "validate_consistent_axes", "mapspec_dimensions"]),
+    ("pipefunc/_pipeline/_mapspec.py", ["find_non_root_axes", "replace_none_in_axes", "create_missing_mapspecs"]),
+    ("pipefunc/_pipeline/_base.py", ["Pipeline.add", "Pipeline._validate_mapspec", "Pipeline._autogen_mapspec_axes",
+                                     "Pipeline.defaults"]),
+    ("pipefunc/map/_prepare.py", ["_validate_complete_inputs"]),
+    ("pipefunc/map/_run_info.py", ["_check_inputs"]),
 ]
-RULE = ("random valid map requests: DAGs of 1..4 structural functions (single/tuple outputs, mapped / unmapped / "
+RULE = ("(1) random valid explicit map requests: DAGs of 1..4 structural functions (single/tuple outputs, mapped / unmapped / "
         "'... -> v[j]' generators), arrays of rank<=3 with axis sizes 1..3, zip / outer product / ':' reductions / "
-        "internal axes at any position, list vs ndarray inputs, bound and default scalars, each storage backend, "
-        "parallel=False; non-trivial = some function with >=2 output axes or a ':' axis or an internal axis; distinct by "
-        "(specs, shapes, storage)")
+        "internal axes at any position, mapped functions with ZERO mapped axes (x[:] -> y[j]), list vs ndarray inputs, "
+        "bound and default scalars, each storage backend, parallel=False; "
+        "(2) USER-LEVEL lists: the same requests with the MapSpec of generator functions removed (incl. tuple-output "
+        "producers and consumers with ':' axes), handed to Pipeline([...]) in a random order - the model constructs the "
+        "pipeline itself and must report the same MapSpecs (structured and as strings) and results; 20% with a "
+        "conflicting consumer (renamed axis / other rank); "
+        "(3) input variants: missing / surplus input, input for a bound parameter, 2-d input as nested lists "
+        "(ValueError before anything runs), input supplied for a defaulted parameter (the input wins); "
+        "non-trivial = some function with >=2 output axes or a ':' axis or an internal axis; distinct by "
+        "(kind, specs, order, shapes, storage)")
 ASSUMPTIONS = ["sequential semantics (parallel=False); executors/schedules are C03",
                "user functions are deterministic and return arrays of the declared internal shape",
-               "MapSpecs are written explicitly (auto-generated specs for unannotated producers are not modelled)"]
-TRUSTED = ["Model/MapRun.v mirrors pipefunc/map/_run.py (sequential path) by hand; storage modelled as the abstract masked array of C07",
+               "construction: only the MapSpec side of Pipeline.add/_validate is modelled (scopes, consistent defaults, "
+               "cycle detection, type annotations: C12/C16)"]
+TRUSTED = ["Model/MapRun.v mirrors pipefunc/map/_run.py (sequential path) by hand; storage modelled as the abstract masked array of C07 "
+           "(tied to the FileArray/DictArray models by Proofs/MapStoreLink.v)",
+           "Model/AutoGen.v mirrors Pipeline.add/_validate_mapspec/_autogen_mapspec_axes and pipefunc/_pipeline/_mapspec.py by hand",
+           "Model/MapPrepare.v mirrors _validate_complete_inputs/_check_inputs by hand",
            "harness/mapsym.py structural user functions and canonicalisation of arrays"]
 
 
 def emit_case(c) -> str:
-    return mapgen.request_lit(c)
+    if c.get("kind") == "auto":
+        aslist = [k for k, v in c["inputs"] if isinstance(v, dict) and v.get("as") == "list"]
+        return "(CAuto %s %s %s)" % (mapgen.request_lit(c), clist([cnat(i) for i in c["order"]]),
+                                     clist([cstr(k) for k in aslist]))
+    return "(CReq %s)" % mapgen.request_lit(c)
+
+
+def _spec_obs(ms):
+    if ms is None:
+        return None
+    return [str(ms), [[a.name, list(a.axes)] for a in ms.inputs], [[a.name, list(a.axes)] for a in ms.outputs]]
+
+
+def _run_auto(c):
+    """User-level list: Pipeline([...]) in the given order generates the missing MapSpecs."""
+    log = mapsym.CallLog()
+    sink = io.StringIO()
+    with contextlib.redirect_stdout(sink):
+        try:
+            p = mapsym.build_pipeline(dict(c, funcs=[c["funcs"][i] for i in c["order"]]), log)
+            specs = [_spec_obs(f.mapspec) for f in p.functions]
+        except Exception as e:  # noqa: BLE001
+            return Err(e)
+        with mapsym.TempRun() as d:
+            try:
+                r = p.map(mapsym.map_inputs(c), run_folder=d, internal_shapes=mapsym.internal_arg(c),
+                          storage=c.get("storage", "dict"), parallel=False)
+                return ["ok", mapsym.results_obs(c, r), len(log.read()), specs]
+            except Exception as e:  # noqa: BLE001
+                return ["maperr", Err(e), specs]
 
 
 def run_impl(c):
+    if c.get("kind") == "auto":
+        return _run_auto(c)
     log = mapsym.CallLog()
     sink = io.StringIO()
     with contextlib.redirect_stdout(sink):
@@ -54,13 +102,97 @@ def run_impl(c):
                 return Err(e)
 
 
+def _conflict(c, rng):
+    """Malformed user-level list: one consumer renames an axis of a spec-less producer's output (conflicting axes for
+    the generated MapSpec: ValueError at construction), or gives it another rank."""
+    import copy
+    c = copy.deepcopy(c)
+    stripped = {o for f in c["funcs"] if f.get("stripped") for o in f["outs"]}
+    uses = [(f, k) for f in c["funcs"] if f.get("spec") for k, (n, ax) in enumerate(f["spec"]["i"]) if n in stripped]
+    if not uses:
+        return None
+    f, k = rng.choice(uses)
+    ax = f["spec"]["i"][k][1]
+    named = [q for q, a in enumerate(ax) if a is not None]
+    if named and rng.random() < 0.6:
+        q = rng.choice(named)
+        old = ax[q]
+        new = "zz"
+        # keep the consumer itself well formed: rename the index everywhere in this MapSpec
+        for _, a2 in f["spec"]["i"] + f["spec"]["o"]:
+            for t, a in enumerate(a2):
+                if a == old:
+                    a2[t] = new
+    else:
+        ax.append(None)
+    c["malformed"] = True
+    return c
+
+
+def _inputs_variant(c, rng):
+    """Variants of the INPUTS of a request (kind "auto": construction + input validation + run are modelled):
+    non-conforming ones (a missing root argument, a surplus input, an input for a bound parameter, a 2-d input passed
+    as nested lists: ValueError before anything runs) and conforming ones that exercise the resolution order of
+    _func_kwargs (an input supplied for a parameter that also has a default: the input wins)."""
+    import copy
+    c = copy.deepcopy(c)
+    if c.get("kind") != "auto":
+        c["kind"] = "auto"
+        c["order"] = list(range(len(c["funcs"])))
+        if rng.random() < 0.3:
+            rng.shuffle(c["order"])
+    arrays2 = [kv for kv in c["inputs"] if isinstance(kv[1], dict) and len(kv[1]["sh"]) >= 2]
+    bound = [b[0] for f in c["funcs"] for b in f.get("bound") or []]
+    dflt = [d[0] for f in c["funcs"] for d in f.get("defaults") or []]
+    kinds = ["missing", "extra"] + (["list2d"] * 2 if arrays2 else []) + (["bound_supplied"] * 2 if bound else []) \
+        + (["default_supplied"] * 3 if dflt else [])
+    k = rng.choice(kinds)
+    if k == "missing" and c["inputs"]:
+        c["inputs"].pop(rng.randrange(len(c["inputs"])))
+    elif k == "extra":
+        c["inputs"].append(["zz_extra", "ZZ"])
+    elif k == "list2d":
+        rng.choice(arrays2)[1]["as"] = "list"
+    elif k == "bound_supplied":
+        p = rng.choice(bound)
+        c["inputs"].append([p, p.upper() + "inp"])
+    elif k == "default_supplied":
+        p = rng.choice(dflt)
+        c["inputs"].append([p, p.upper() + "inp"])
+    c["variant"] = k
+    return c
+
+
 def generate(rng, tier, mult):
     n = (220 if tier == "quick" else 4000) * mult
+    n_auto = (110 if tier == "quick" else 2000) * mult
     out = []
     while len(out) < n:
-        c = mapgen.gen_request(rng)
+        c = mapgen.gen_request(rng, allow_zero_ext=True)
         if mapgen.request_size(c) <= 40:
             out.append(c)
+    k = 0
+    while k < n_auto:
+        c = mapgen.gen_request(rng, allow_zero_ext=True)
+        if mapgen.request_size(c) > 40:
+            continue
+        u = mapgen.to_user_level(c, rng)
+        if u is None:
+            continue
+        if rng.random() < 0.2:
+            u = _conflict(u, rng) or u
+        out.append(u)
+        k += 1
+    n_var = (60 if tier == "quick" else 1200) * mult
+    k = 0
+    while k < n_var:
+        c = mapgen.gen_request(rng, allow_zero_ext=True)
+        if mapgen.request_size(c) > 40:
+            continue
+        if rng.random() < 0.3:
+            c = mapgen.to_user_level(c, rng) or c
+        out.append(_inputs_variant(c, rng))
+        k += 1
     return out
 
 
@@ -75,6 +207,9 @@ def _nontrivial(c):
 def nontrivial_key(c):
     if not _nontrivial(c):
         return None
+    if c.get("kind") == "auto":
+        return ("auto", [mapsym.spec_str(f.get("spec")) for f in c["funcs"]], c["order"],
+                [v["sh"] if isinstance(v, dict) else 0 for _, v in c["inputs"]], c.get("storage"))
     return ([mapsym.spec_str(f.get("spec")) for f in c["funcs"]],
             [v["sh"] if isinstance(v, dict) else 0 for _, v in c["inputs"]], c.get("storage"))
 
@@ -82,7 +217,17 @@ def nontrivial_key(c):
 def distribution(c):
     kinds = sorted({"map" if (f.get("spec") and f["spec"]["i"]) else ("gen" if f.get("spec") else "single")
                     for f in c["funcs"]})
+    def zero_ext(f):
+        sp = f.get("spec")
+        return bool(sp and sp["i"] and not any(a is not None for _, ax in sp["i"] for a in ax))
     return {"nfuncs": len(c["funcs"]), "kinds": "+".join(kinds), "storage": c.get("storage"),
+            "case": ("inputs-" + c["variant"] if c.get("variant") else
+                     "auto-malformed" if c.get("malformed") else "auto") if c.get("kind") == "auto" else "explicit",
+            "auto_tuple": any(f.get("stripped") and len(f["outs"]) > 1 for f in c["funcs"]),
+            "auto_colon": any(f.get("spec") and any(n in {o for g in c["funcs"] if g.get("stripped") for o in g["outs"]}
+                                                    and None in ax for n, ax in f["spec"]["i"]) for f in c["funcs"]),
+            "permuted": c.get("order") is not None and c["order"] != sorted(c["order"]),
+            "zero_ext": any(zero_ext(f) for f in c["funcs"]),
             "internal_first": any(f.get("ret") and f.get("spec") and f["spec"]["i"] and
                                   f["spec"]["o"][0][1][0] not in {a for _, ax in f["spec"]["i"] for a in ax}
                                   for f in c["funcs"])}
@@ -101,6 +246,8 @@ def shrink(c):
             continue
         d = json.loads(json.dumps(c))
         d["funcs"] = fs[:j] + fs[j + 1:]
+        if d.get("order") is not None:
+            d["order"] = [i - (i > j) for i in d["order"] if i != j]
         used = {p for g in d["funcs"] for p in g["params"]}
         d["inputs"] = [kv for kv in d["inputs"] if kv[0] in used]
         if d["funcs"]:
